@@ -1,7 +1,7 @@
 #!/bin/sh
 # usage: tools/run_all.sh <tier> <seed>...   — every claimed check, one line per check and seed
 TIER="$1"; shift
-cd /verif || exit 2
+cd "$(dirname "$0")/.." || exit 2
 IDS=$(python3 -c "import json; print(' '.join(c['property_id'] for c in json.load(open('MANIFEST.json'))['checks']))")
 for S in "$@"; do
   for ID in $IDS; do
